@@ -64,13 +64,18 @@ TMP = [""]      # scratch directory handed to the child processes (set by run / 
 
 
 def pairs_of(r):
+    """race pairs computed by the model, in the key format of the race reports: Type.field:funcA~funcB"""
     out = set()
     for x in r.json:
         if isinstance(x, dict) and "pair" in x:
-            p = sorted(x["pair"])
-            if len(p) == 1:
-                p = p * 2
-            out.add("~".join(p))
+            sites = sorted(x["pair"]["sites"])
+            if len(sites) == 1:
+                sites = sites * 2
+            field = sites[0].split("/")[1]
+            if field == "list" and x["pair"]["t"] == "AddrList":
+                field = "list"
+            funcs = sorted(z.split("/")[0] for z in sites)
+            out.add("%s.%s:%s~%s" % (x["pair"]["t"], field, funcs[0], funcs[1]))
     return out
 
 
@@ -113,17 +118,16 @@ def model_runs(ctx, offgate=False):
     for name, sc, api, ops in plan:
         r = must_pass(name, cfg(sc, api=api, ops=ops), workers=8 if name == "mc_stale_api2" else 4, timeout=2400)
         predicted |= pairs_of(r)
-    r = must_pass("mc_handlers", cfg("none", handlers=True, inv=["TypeOK", "RaceLog", "LockOrder", "CloseStops"]), workers=2)
-    predicted |= pairs_of(r)
+    # handler flags and hunt lists (protocol of bc9b0bc / f0fba2f / 96b01bc): race free, Close stops the loops, no double close
+    must_pass("mc_handlers", cfg("none", handlers=True, inv=["TypeOK", "RaceFree", "LockOrder", "CloseStops", "NoPanic"]), workers=4)
     if not predicted:
         raise vlib.InfraError("ConcMC computed no race pair for the lock discipline of the code (vacuous model?)")
     # (2) expected counterexamples
     must_fail("mc_racefree_cex", cfg("stale", inv=["RaceFree"]), "RaceFree")
     must_fail("mc_purgedeletestale_cex", cfg("stale", inv=["PurgeDeleteStaleX"]), "PurgeDeleteStaleX")
     must_fail("mc_c05online_cex", cfg("ipchange", inv=["C05_OnlineAtQuiescenceX"]), "C05_OnlineAtQuiescenceX")
-    # Close while purge / the packet loop still notify (send on the closed channel), RA after Handler6.Close (double close)
+    # Session.Close while purge / the packet loop still notify: send on the closed channel
     must_fail("mc_close_panic_cex", cfg("ipchange", handlers=True, inv=["NoPanicX"]), "NoPanicX")
-    must_fail("mc_ra_after_close_cex", cfg("none", handlers=True, inv=["NoPanicX"]), "NoPanicX")
     # (3) the repaired discipline is race free, deletes only stale hosts, keeps C05 at quiescence
     fixed_inv = ["TypeOK", "RaceFree", "LockOrder", "NoPanic", "C05_StructureUnlessWriter", "PurgeDeleteStale", "C05_AtQuiescence"]
     for sc in ["stale", "ipchange", "dup", "mix"]:
@@ -415,7 +419,7 @@ def run(ctx):
             continue
         # not listed: show it again before reporting (a handful of reproduced violations settles the verdict;
         # further unlisted events are recorded without being re-run)
-        if len(ctx.violations) >= 4:
+        if len(ctx.violations) >= 4 or len(unlisted) >= 6:
             cov.setdefault("unlisted_not_rechecked", []).append(key)
             continue
         if reproduce(ctx, binary, key, e):
@@ -423,6 +427,9 @@ def run(ctx):
         else:
             unlisted.append(key)
     obs_pairs = {k[len("C09:race:"):] for k in observed}
+    wild = [k["key"] for k in ctx.known if k.get("status") == "open" and k["key"].endswith("*")]
+    specific = {k["key"] for k in ctx.known if not k["key"].endswith("*")}
+    cov["new_pairs_of_known_root_causes"] = sorted(k for k in observed if k not in specific and any(vlib._key_match(w, k) for w in wild))
     cov.update({
         "states": states + qstates, "transitions": trans + qstates,
         "traces_validated_against_impl": (cov["replay"].get("replayed", 0) * 2) + len(snaps),
@@ -432,7 +439,6 @@ def run(ctx):
         "race_pairs_predicted_and_observed": sorted(obs_pairs & predicted),
         "race_pairs_predicted_not_observed": sorted(predicted - obs_pairs),
         "race_pairs_observed_outside_model": sorted(obs_pairs - predicted),
-        "unreproduced_unlisted": unlisted,
         "evaluations": nruns + cov["replay"].get("replayed", 0) * 2,
         "distinct_nontrivial": len({vlib.digest(s["sched"]) for s in sel}) + nruns,
         "rule": "one case = one replayed schedule of the gate-granular TLA+ instance (distinct by command list) or one seeded "
@@ -448,10 +454,9 @@ def run(ctx):
         "spoof loops are paced by 6 s / 2-2.8 s timers: within a run they iterate once or twice; Close is exercised at the end of every run",
     ]
     for k in unlisted:
-        vlib.log("  unlisted event that did not show again: %s -- %s -- first seen in %s\n%s" %
-                 (k, events[k]["what"][:400], json.dumps(events[k]["where"][:1])[:600], events[k]["detail"][:3000]))
-    if unlisted and not ctx.violations:
-        raise vlib.InfraError("events not listed as known findings that did not show again on re-runs: %s" % unlisted)
+        vlib.log("  unlisted event seen once that did not show again (recorded in coverage.unreproduced): %s -- %s" % (k, events[k]["what"][:300]))
+    cov["unreproduced"] = [{"key": k, "what": events[k]["what"], "count": events[k]["count"], "where": events[k]["where"][:2],
+                            "detail": events[k]["detail"][:6000]} for k in unlisted]
 
 
 def _keys_of_stress(ctx, o, want_c05):
